@@ -149,7 +149,7 @@ def evolve_oracle(args):
         H, hd = MPO.heisenberg(L, args["J"], 0.5 * args["J"], 0.3, args["g"]), dense.heisenberg(L, args["J"], 0.5 * args["J"], 0.3, args["g"])
     procs = args.get("procs") or []
     nm = NoiseModel([dict(p) for p in procs]) if procs else None
-    specs = [(p, i) for i in range(L) for p in "xz"] + [(pp, [i, i + 1]) for i in range(L - 1) for pp in ("zz", "xx")]
+    specs = [(p, i) for i in range(L) for p in "xyz"] + [(pp, [i, i + 1]) for i in range(L - 1) for pp in ("zz", "xx")]
     T, dt = 0.2, 0.02
     ntraj = 1
     if procs and solver != "Lindblad":
@@ -182,7 +182,7 @@ def evolve_oracle(args):
 
 def search(ctx):
     states = [dict(state="basis", basis_string="100"), dict(state="Neel"), dict(state="wall"), dict(state="basis", basis_string="0110"),
-              dict(state="x+"), dict(state="basis", basis_string="10")]
+              dict(state="x+"), dict(state="basis", basis_string="10"), dict(state="y+"), dict(state="y-")]
     plan = []
     for k in range(ctx.scale(14, 200)):
         kw = states[k % len(states)]
